@@ -1,13 +1,13 @@
 package props
 
 import (
-	"net"
 	"bytes"
 	"crypto/aes"
 	"crypto/cipher"
 	"crypto/hmac"
 	"crypto/sha256"
 	"fmt"
+	"net"
 	"sync"
 	"testing"
 	"time"
